@@ -5,7 +5,7 @@ from concurrent.futures import ThreadPoolExecutor
 TRUSTED_BASE = [
     'Coq 8.16.1 kernel (coqc, full .vo builds; vm_compute used for finite table checks; no native_compute)',
     'no axioms: Print Assumptions of every Props theorem is "Closed under the global context" (see coverage.assumptions)',
-    'translator /verif/translator (go/ast -> coq/gen/Tables.v, Consts.v, Upper.v), validated by the exhaustive class sweep',
+    'translator /verif/translator (go/ast -> coq/gen/Tables.v, Consts.v, Upper.v, validated by the exhaustive class sweep; util.RangeToIndexes -> coq/gen/Funcs.v statement by statement, Go int read as Z)',
     'extraction: ExtrOcamlBasic only (bool, option, unit, list, prod, sumbool to OCaml types); Z/positive/nat as Coq inductives; no Extract Constant',
     'OCaml 4.13.1 and the hand-written driver (ocaml/conv.ml, verdicts.ml, driver.ml) for the correspondence only',
     'Go harness /verif/harness built with -tags verif against /repo; hooks internal/gem/verif_export.go, verif_export.go, verif_export_table.go',
